@@ -81,6 +81,24 @@ pub enum Gen {
     /// A valid prefix followed by a lazily generated run of `unit` repeated,
     /// up to `max` bytes in total, then EOF.
     Hostile { prefix: Arc<Vec<u8>>, unit: Vec<u8>, pos: u64, max: u64 },
+    /// A sequence of sections, each either literal bytes or a repeated unit of
+    /// a given total length (`None`: endless, only sensible for the last one),
+    /// up to `max` bytes in total, then EOF.
+    Sections { sections: Vec<Section>, pos: u64, max: u64 },
+}
+
+pub enum Section {
+    Bytes(Arc<Vec<u8>>),
+    Repeat { unit: Vec<u8>, len: Option<u64> },
+}
+
+impl Section {
+    fn len(&self) -> Option<u64> {
+        match self {
+            Section::Bytes(b) => Some(b.len() as u64),
+            Section::Repeat { len, .. } => *len,
+        }
+    }
 }
 
 impl Gen {
@@ -91,6 +109,47 @@ impl Gen {
                 let end = (*pos + n).min(data.len());
                 out.extend_from_slice(&data[*pos..end]);
                 *pos = end;
+            }
+            Gen::Sections { sections, pos, max } => {
+                let mut want = (n as u64).min(max.saturating_sub(*pos));
+                out.reserve(want as usize);
+                let mut start = 0u64; // offset of the current section
+                for sec in sections.iter() {
+                    if want == 0 {
+                        break;
+                    }
+                    let slen = sec.len();
+                    let end = slen.map(|l| start + l);
+                    if let Some(e) = end {
+                        if *pos >= e {
+                            start = e;
+                            continue;
+                        }
+                    }
+                    let off = *pos - start;
+                    let avail = slen.map(|l| l - off).unwrap_or(u64::MAX);
+                    let take = want.min(avail);
+                    match sec {
+                        Section::Bytes(b) => out.extend_from_slice(&b[off as usize..(off + take) as usize]),
+                        Section::Repeat { unit, .. } => {
+                            let ulen = unit.len();
+                            let mut phase = (off % ulen as u64) as usize;
+                            let mut left = take as usize;
+                            while left > 0 {
+                                let t = (ulen - phase).min(left);
+                                out.extend_from_slice(&unit[phase..phase + t]);
+                                left -= t;
+                                phase = 0;
+                            }
+                        }
+                    }
+                    *pos += take;
+                    want -= take;
+                    match end {
+                        Some(e) => start = e,
+                        None => break,
+                    }
+                }
             }
             Gen::Hostile { prefix, unit, pos, max } => {
                 let mut want = (n as u64).min(max.saturating_sub(*pos)) as usize;
